@@ -104,6 +104,19 @@ func c07Verify(res *engine.Result, carrier, cls string, pat psi.PAT, m *ref.PATM
 			}
 		}
 	}
+	// the map is the caller's: writing into it must not show in the table (nor in any other table)
+	pm[0xBEEF] = 0x1ABC
+	delete(pm, 1)
+	if pm2 := pat.ProgramMap(); len(pm2) != len(m.Map) {
+		res.Failf(pre+"ProgramMap-follows-the-returned-map", "after the caller wrote into the map it was handed, ProgramMap()=%s want %s", c07Fmt(pm2), c07Fmt(m.Map))
+	} else {
+		for pn, pid := range m.Map {
+			if got, ok := pm2[pn]; !ok || got != pid {
+				res.Failf(pre+"ProgramMap-follows-the-returned-map", "after the caller wrote into the map it was handed, ProgramMap()=%s want %s", c07Fmt(pm2), c07Fmt(m.Map))
+				break
+			}
+		}
+	}
 	pid, err := pat.SPTSpmtPID()
 	switch {
 	case m.SPTSOK && err != nil:
@@ -243,6 +256,44 @@ func c07Carriers(res *engine.Result, sec *ref.PATSection, cc byte, allPIDs bool)
 	} else {
 		c07Verify(res, "stream-1-packet", cls, pat, &m, probes[:3], false)
 	}
+}
+
+// ---- scenario "program-number-sweep" -----------------------------------------------------------------------
+
+type c07PNCase struct {
+	High int `json:"program_number_high_byte"`
+}
+
+// one-entry and two-entry tables over ALL 65536 program numbers (the one-entry table is the only shape in which
+// the single-program accessor has to succeed)
+func c07CheckPN(c c07PNCase) engine.Result {
+	var res engine.Result
+	var pb [48]int
+	engine.Guard(&res, "program-number-sweep", func() {
+		for low := 0; low < 256; low++ {
+			pn := uint16(c.High<<8 | low)
+			for n := 1; n <= 2; n++ {
+				sec := ref.PATSection{TSID: 0x0FF0, Version: byte(low & 31), CurrentNext: true, Entries: []ref.PATEntry{{Program: pn, PID: 0x100 + low, Reserved: 7}}}
+				if n == 2 {
+					sec.Entries = append(sec.Entries, ref.PATEntry{Program: pn ^ 0x0100, PID: 0x1F00 + low%0xFF, Reserved: 7})
+				}
+				m := sec.Model()
+				payload := append(ref.Pointer(0), sec.Bytes()...)
+				pat, err := psi.NewPAT(payload)
+				if err != nil || pat == nil {
+					res.Failf("program-number-sweep|NewPAT-error", "program_number %#x: %v", pn, err)
+					return
+				}
+				res.Nontrivial++
+				c07Verify(&res, "program-number-sweep", c07Class(sec.Entries), pat, &m, c07Probes(sec.Entries, pb[:0])[:3], false)
+				if len(res.Fail) > 6 {
+					return
+				}
+			}
+		}
+	})
+	res.Outcome(c.High >> 4)
+	return res
 }
 
 // ---- scenario "foreign-packet-headers" ------------------------------------------------------------------
@@ -1032,6 +1083,16 @@ func init() {
 					}
 				},
 				Check: c07CheckNest, Batch: 4,
+			},
+			&engine.Enum[c07PNCase]{
+				Name: "program-number-sweep",
+				Rule: "one-entry tables (and two-entry tables) over ALL 65536 program numbers: NumPrograms, ProgramMap (also after the caller wrote into the returned map), SPTSpmtPID, IsPMT",
+				Gen: func(r *engine.Run, emit func(c07PNCase)) {
+					for h := 0; h < 256; h++ {
+						emit(c07PNCase{h})
+					}
+				},
+				Check: c07CheckPN, Batch: 4,
 			},
 			&engine.Enum[c07ForeignCase]{
 				Name: "foreign-packet-headers",
